@@ -150,6 +150,20 @@ fn walk_cycle(rows: &[Row], k: i64, one_day: &Duration, day_settings: Difference
                     }
                 }
             }
+            // from the first and the last day of every month: k days back and forth for every k up to two months (the day reached comes
+            // from the table: carries over one and two month boundaries of every length, in both directions)
+            if (r.d == 1 || r.d as u16 == r.dim) && i >= 62 && i + 62 < rows.len() {
+                for off in 2..=62usize {
+                    let dk = Duration::new(z(), z(), z(), FiniteF64::from(off as u8), z(), z(), z(), z(), z(), z()).unwrap();
+                    let (fw, bw) = (rows[i + off], rows[i - off]);     // the same copy of the cycle: 62 rows away from both ends
+                    if n + (off as i64) <= MAX_DAY { match date.add(&dk, None) {
+                        Ok(d2) => { chk!("addk", (d2.year() as i64, d2.month(), d2.day()), (fw.y + 400 * k, fw.m, fw.d)); }
+                        Err(e) => out.push(("addk", json!("ok"), json!(crate::proj::kind_of(&e)))) } }
+                    if n - (off as i64) >= MIN_DAY { match date.subtract(&dk, None) {
+                        Ok(d2) => { chk!("subk", (d2.year() as i64, d2.month(), d2.day()), (bw.y + 400 * k, bw.m, bw.d)); }
+                        Err(e) => out.push(("subk", json!("ok"), json!(crate::proj::kind_of(&e)))) } }
+                }
+            }
             // the same month and day in years that differ by a power of two or a cycle length, then this day again: an answer kept
             // between calls under a shortened key (a memo of the last week computation, say) shows as a wrong second answer
             if r.d == 1 || r.d == 15 || r.d as u16 == r.dim {
